@@ -18,6 +18,9 @@ CHECKS = {
     "C06": C("c06", dict(checks=5000, shards=2, timeout=300), dict(checks=50000, shards=16, timeout=3000),
              "property-based testing (rapid): generated indices, query trees and Next/Advance call scripts on three index back ends compared with a set-algebra denotation and a sorted-slice iterator model",
              "Trusted: the set denotation and position model in harness/c06. The empty intersection (which would denote the universe and indexes iterators[0]) is outside the domain; scripts stop at the first false result because behaviour after exhaustion differs between back ends and is unspecified."),
+    "C07": C("c07", dict(checks=3000, shards=2, timeout=300), dict(checks=30000, shards=16, timeout=3000),
+             "property-based testing (rapid), stateful: generated insert/delete/iterator histories on TreeIndex against a reference set, with the AVL invariant (hook VerifValidate) and full-scan equality checked after every step",
+             "Trusted: the reference set and the iterator contract as stated in the property (deliberately weaker than exact in-order successor: a value inserted after the iterator was opened may or may not be returned). Uses hook TreeIndex.VerifValidate."),
     "C08": C("c08", dict(checks=3000, shards=2, timeout=300), dict(checks=20000, shards=16, timeout=3000),
              "property-based testing (rapid): generated ID lists and Next/Advance scripts on compact.Iterator compared with a sorted-slice + position reference model",
              "Trusted: the sorted-slice model; Advance targets are restricted to namespaces in the namespace table (NamespaceTable.Encode panics otherwise, as in every caller); after a failed Advance a positioned iterator is expected to be unmoved (asserted by the repository's own ValidatePostingListIteratorAdvanceBeyondEnd)."),
@@ -27,6 +30,9 @@ CHECKS = {
     "C10": C("c10", dict(checks=30000, shards=1, timeout=300), dict(checks=400000, shards=16, timeout=3000),
              "property-based testing (rapid) plus structured enumeration: inverse(pack(x)) == x for every bit-packing, exhaustive where the domain is small",
              "Generated-input search, not the symbolic decision the property text asks for: a failure confined to a region neither the enumeration grid (single bits, all-ones prefixes, corners, every small domain completely) nor the boundary-biased random draws reach is missed. Uses hooks VerifBucketHeaderRoundTrip, VerifBucketBitsForCount, VerifTagBits, VerifZigzagEncode/Decode."),
+    "C11": C("c11", dict(checks=6000, shards=2, timeout=300), dict(checks=60000, shards=16, timeout=3000),
+             "property-based testing (rapid): round-trip (decode(encode(v)) == v and bytes read == bytes written) for every compact record codec, with generated primary namespaces and dirty decode targets",
+             "Trusted: the normal-form comparison in harness/c11 (lists that Marshal sorts are compared sorted; nil and empty lists are equal). Values are within each codec's representable range (roles < 2^61, member types 0-3, namespaces < 8192, no reference with type+namespace 0)."),
     "C39": C("c39", dict(checks=5000, shards=2, timeout=300), dict(checks=100000, shards=16, timeout=1800),
              "property-based testing (rapid): generated operation sequences on b6.Tags compared step by step with an ordered-list reference model; shrunk failing case saved as JSON replay",
              "Trusted: the ordered-list model in harness/c39; keys are distinct and non-empty as the property states; values are string expressions."),
